@@ -14,4 +14,38 @@ def run(ctx):
 
 
 def extra(ctx, res):
+    import ast
+
+    from ..kinds import BOOL, Atom, Const, Lst, Seq, Union, elem_of
+    from ..model import loc, norm, walk_no_nested
+    from ._clients import DEGREE, check_filter_clients
+
+    cls = "DirectedHypergraph"
+    res.rules["K-ROLE"] = "role-specific queries read only the adjacency table / key component of their own role"
+    res.rules["K-BOOL"] = "membership queries return the membership test itself (a bool)"
+    # role provenance (frozen pairing, one line of reason each)
+    ROLE_TABLE = {
+        "get_source_edges": ("_adj_source", "_adj_target"),  # docstring: hyperedges in which the node is a source
+        "get_target_edges": ("_adj_target", "_adj_source"),
+    }
+    for m, (own, other) in ROLE_TABLE.items():
+        v = ctx.view(f"{cls}.{m}")
+        reads = [o for o in v.ops() if o.table in (own, other)]
+        res.check(any(o.table == own for o in reads), "K-ROLE", v.fi.short, f"reads {own}", own, f"{m} never reads {own}", loc(v.fi, v.fi.node))
+        for o in reads:
+            if o.table == other:
+                res.violation("K-ROLE", v.fi.short, norm(o.node), other, f"{m} reads {other}: source and target roles are mixed up", loc(v.fi, o.node))
+    for m, role in (("get_sources", "SRC"), ("get_targets", "TGT")):
+        fi = ctx.require(f"{cls}.{m}")
+        k = ctx.interp.analyse_entry(fi)
+        e = elem_of(elem_of(k))
+        good = isinstance(e, Atom) and e.name == "NODE" and e.role == role
+        bad = isinstance(e, Atom) and e.name == "NODE" and e.role not in (None, role)
+        res.add("K-ROLE", fi.short, "return kind " + repr(k), role, "ok" if good else ("violation" if bad else "unknown"), f"{m} returns the {e.role} component" if bad else "", loc(fi, fi.node))
+    for m in ("check_node", "check_edge", "is_weighted", "is_uniform"):
+        fi = ctx.require(f"{cls}.{m}")
+        k = ctx.interp.analyse_entry(fi)
+        boolish = k == BOOL or (isinstance(k, Const) and isinstance(k.value, bool)) or (isinstance(k, Union) and all(x == BOOL or (isinstance(x, Const) and isinstance(x.value, bool)) for x in k.members))
+        res.check(boolish, "K-BOOL", fi.short, "return kind " + repr(k), "bool", f"{m} can return a non-boolean object (a truthy table for an absent item)", loc(fi, fi.node))
+    check_filter_clients(ctx, res, DEGREE + ["cc.isolated_nodes", "cc.is_isolated", "degree.in_degree", "degree.out_degree", "degree.in_degree_sequence", "degree.out_degree_sequence"][:2])
     return res
